@@ -257,7 +257,7 @@ func applySet(val reflect.Value, term string, st SpecSet) (string, error) {
 
 // ---- random specifications -----------------------------------------------------------------------
 
-var floatPool = []float64{0.1, 0.5, 1, 2, 2.5, 3, 10, 20, 30, 50, 70, 80}
+var floatPool = []float64{0.01, 0.03, 0.1, 0.5, 1, 2, 2.5, 3, 10, 20, 30, 50, 70, 80}
 
 func (c *Ctx) randPeriod(maxP int) int64 {
 	if c.Rng.IntN(6) == 0 {
